@@ -42,11 +42,11 @@ theorem gsResidual_orth (U : Mat α) (v : Nat → α) (h : OrthoCols U) (c : Nat
 /-- **the basis extension of `gta` preserves orthonormality**: if the columns of `U` are orthonormal and `ny`
 is the norm of the residual `y = v - U Uᵀ v` (`ny² = Σ y²`, `ny ≠ 0` whenever a column is appended), then the
 result of the loop body — `U` itself when the skip rule fires, `[U, y/ny]` otherwise — has orthonormal columns. -/
-theorem gtaExtend_orthonormal (thr : Option α) (U : Mat α) (v : Nat → α) (ny : α) (h : OrthoCols U)
+theorem gtaExtend_orthonormal (rule : SkipRule α) (U : Mat α) (v : Nat → α) (ny nv : α) (h : OrthoCols U)
     (hny : ny * ny = sumN U.rows (fun i => gsResidual U v i * gsResidual U v i))
-    (hpos : (gtaExtend thr U v ny).cols = U.cols + 1 → ny ≠ 0) :
-    OrthoCols (gtaExtend thr U v ny) := by
-  obtain ⟨skip, hs⟩ : ∃ skip : Bool, gtaExtend thr U v ny = if skip then U else
+    (hpos : (gtaExtend rule U v ny nv).cols = U.cols + 1 → ny ≠ 0) :
+    OrthoCols (gtaExtend rule U v ny nv) := by
+  obtain ⟨skip, hs⟩ : ∃ skip : Bool, gtaExtend rule U v ny nv = if skip then U else
       ⟨U.rows, U.cols + 1, fun i c => if c < U.cols then U.get i c else gsResidual U v i / ny⟩ := ⟨_, rfl⟩
   rw [hs] at hpos ⊢
   cases skip with
@@ -77,10 +77,31 @@ theorem gtaExtend_orthonormal (thr : Option α) (U : Mat α) (v : Nat → α) (n
       rw [sumN_congr _ _ _ (fun i _ => this i), sumN_mul_left, ← hny]
       field_simp
 
-/-- the skip rule: below the threshold the basis is returned unchanged, otherwise exactly one column is added -/
-theorem gtaExtend_cols (t : α) (U : Mat α) (v : Nat → α) (ny : α) :
-    (gtaExtend (some t) U v ny).cols = if ny < t then U.cols else U.cols + 1 := by
+/-- the repaired skip rule: the basis is returned unchanged iff `ny ≤ c·nv` or it is already complete,
+otherwise exactly one column is added -/
+theorem gtaExtend_cols (c : α) (U : Mat α) (v : Nat → α) (ny nv : α) :
+    (gtaExtend (.relative c) U v ny nv).cols = if ny ≤ c * nv ∨ U.rows ≤ U.cols then U.cols else U.cols + 1 := by
+  unfold gtaExtend
+  by_cases h1 : c * nv < ny <;> by_cases h2 : U.rows ≤ U.cols <;> simp [h1, h2, not_le.2, le_of_not_gt]
+
+/-- the rule of `gta` before 2f34e7d -/
+theorem gtaExtend_cols_absolute (t : α) (U : Mat α) (v : Nat → α) (ny nv : α) :
+    (gtaExtend (.absolute t) U v ny nv).cols = if ny < t then U.cols else U.cols + 1 := by
   unfold gtaExtend
   by_cases h : ny < t <;> simp [h]
+
+/-- with the repaired rule the rank of a mode never exceeds its size -/
+theorem gtaExtend_rank_le (c : α) (U : Mat α) (v : Nat → α) (ny nv : α) (h : U.cols ≤ U.rows) :
+    (gtaExtend (.relative c) U v ny nv).cols ≤ (gtaExtend (.relative c) U v ny nv).rows := by
+  have hr : (gtaExtend (.relative c) U v ny nv).rows = U.rows := by
+    obtain ⟨skip, hs⟩ : ∃ skip : Bool, gtaExtend (.relative c) U v ny nv = if skip then U else
+        ⟨U.rows, U.cols + 1, fun i c => if c < U.cols then U.get i c else gsResidual U v i / ny⟩ := ⟨_, rfl⟩
+    rw [hs]; cases skip <;> rfl
+  rw [hr, gtaExtend_cols]
+  split
+  · exact h
+  · rename_i hn
+    have : ¬ U.rows ≤ U.cols := fun hh => hn (Or.inr hh)
+    omega
 
 end Pyiga.Tensor
